@@ -138,6 +138,16 @@ def run(ctx):
     ctx.trusted = ["harness/pipeline.py recorders (snapshots at return)", "harness/gen_reads.py", "harness/gen_db.py", "TLC"]
     ctx.assumptions = ["candidates within 3e-4 of a selection threshold make the run UNDECIDED"]
     ctx.mc("mc/MC_Pipeline", "mc/MC_Pipeline_quick.cfg" if quick else "mc/MC_Pipeline.cfg", label="MC_Pipeline", timeout=3000)
+    if not quick:
+        # the composition Guards x Pipeline (spec/Aldy.tla): component properties survive the coupling; coupling invariants;
+        # two configs that MUST fail (a run reporting two solutions exists; a stage failure exists) guard against vacuity
+        ctx.mc("mc/MC_Aldy", label="MC_Aldy(composition)", timeout=3000)
+        for cfg, inv in (("mc/MC_Aldy_vac1.cfg", "NeverTwoReported"), ("mc/MC_Aldy_vac2.cfg", "NeverStageFailure")):
+            r = ctx.mc("mc/MC_Aldy", cfg, expect_ok=False, label=f"MC_Aldy({inv} must be violated)")
+            if r.violated != inv:
+                from ..core import MachineryError
+
+                raise MachineryError(f"anti-vacuity config {cfg}: expected violation of {inv}, got {r.violated}")
     tasks = []
     for i in range(14 if quick else 120):
         tasks.append((rng.randrange(1 << 30), "toy" if i % 2 == 0 else "gendb", 6 if quick else 14))
